@@ -252,3 +252,80 @@ def multi_pattern(item):
             except Exception:
                 out.append(dict(base, error=traceback.format_exc()[-800:]))
     return out
+
+
+def symlink_discipline(item):
+    """C06: scandir discipline and termination of glob on trees with symlinks (incl. cycles); WcMatch without SYMLINKS."""
+    import re as _re
+    tname, spec, cases = item
+    out = []
+    cyclic = trees.is_cyclic(spec)
+    from wcmatch import wcmatch as WM
+    with trees.Tree(spec) as t:
+        ndirs = 1 + sum(1 for e in t.entries() if os.path.isdir(os.path.join(t.root, e)) and not os.path.islink(os.path.join(t.root, e)))
+        real_scandir = os.scandir
+        for txt, flags in cases:
+            follow = bool(flags & G.L)
+            base = dict(tree=tname, pattern=txt, flags=flags, fl=LC.flagnames(flags))
+            if cyclic and (follow or (flags & G.GL and ('***' in txt or flags & G.X))):
+                continue
+            scanned = []
+
+            def counting(path='.'):
+                scanned.append(path if not isinstance(path, int) else '<fd>')
+                return real_scandir(path)
+            try:
+                os.scandir = counting
+                t0 = time.time()
+                res = with_alarm(lambda: G.glob(txt, flags=flags | G.U, root_dir=t.root))
+                dt = time.time() - t0
+            except CaseTimeout:
+                out.append(dict(base, bad=[('does-not-terminate', f'> {CASE_SECONDS}s, {len(scanned)} directory listings')], n=0))
+                continue
+            except Exception:
+                out.append(dict(base, error=traceback.format_exc()[-800:]))
+                continue
+            finally:
+                os.scandir = real_scandir
+            bad = []
+            literal_names = set(_re.findall(r'[A-Za-z0-9_.]+', txt))
+            rest = txt
+            if flags & G.GL:
+                rest = _re.sub(r'(^|/)\*\*\*(?=/|$)', r'\1', rest)
+            if flags & (G.G | G.GL):
+                rest = _re.sub(r'(^|/)\*\*(?=/|$)', r'\1', rest)
+            only_globstar_and_literals = not _re.search(r'[*?\[(]', rest)
+            wants_links = follow or ('***' in txt and flags & G.GL) or (flags & G.X and flags & G.GL and flags & G.L)
+            if not wants_links and only_globstar_and_literals:
+                for sp in scanned:
+                    rel = os.path.relpath(sp, t.root) if isinstance(sp, str) and sp.startswith(t.root) else sp
+                    parts = [] if rel in ('.', '<fd>') else rel.split('/')
+                    cur = t.root
+                    for comp in parts:
+                        cur = os.path.join(cur, comp)
+                        if os.path.islink(cur) and comp not in literal_names:
+                            bad.append(('lists-a-directory-through-a-symlink-in-globstar-position', rel))
+                            break
+            if len(scanned) > 40 * ndirs * (txt.count('/') + 2):
+                bad.append(('too-many-directory-listings', f'{len(scanned)} scandir calls for {ndirs} real directories'))
+            out.append(dict(base, bad=bad, n=len(res), scans=len(scanned)))
+        # WcMatch without SYMLINKS terminates and never goes through a symlinked directory
+        for wflags in (WM.RV, WM.RV | WM.HD):
+            base = dict(tree=tname, pattern='WcMatch(*)', flags=wflags, fl=f'WcMatch:{wflags:#x}')
+            try:
+                res = with_alarm(lambda: WM.WcMatch(t.root, '*', flags=wflags).match())
+                bad = []
+                for x in res:
+                    rel = os.path.relpath(x, t.root)
+                    cur = t.root
+                    for comp in rel.split('/')[:-1]:
+                        cur = os.path.join(cur, comp)
+                        if os.path.islink(cur):
+                            bad.append(('WcMatch-walks-through-a-symlinked-directory-without-SYMLINKS', rel))
+                            break
+                out.append(dict(base, bad=bad, n=len(res), scans=0))
+            except CaseTimeout:
+                out.append(dict(base, bad=[('WcMatch-does-not-terminate', '')], n=0))
+            except Exception:
+                out.append(dict(base, error=traceback.format_exc()[-800:]))
+    return out
